@@ -63,12 +63,13 @@ def cases(rng, tier):
             if name in NO_IDENTITY and not any(l > 0 for l in lens):
                 continue      # max/min/mean/argmax/argmin speak about non-empty rows only; an array without any is not judged
             out.append({"lens": lens, "how": how, "name": name, "dtype": dt, "axis": axis, "keepdims": keep, "vseed": rng.randint(0, 999),
-                        "vmode": rng.choice(["rare", "rare", "rare", "cancel", "cancel", "small", "small", "small", "small", "small"])})
+                        "vmode": rng.choice(["rare", "rare", "rare", "cancel", "cancel", "small", "small", "small", "small", "small"]),
+                        "derived": rng.choice(gens.DERIVATIONS)})
     return out
 
 
 def key(p):
-    return engine.stable_hash([p["lens"], p["how"], p["name"], p["dtype"], p["axis"], p["keepdims"], p.get("vmode")])
+    return engine.stable_hash([p["lens"], p["how"], p["name"], p["dtype"], p["axis"], p["keepdims"], p.get("vmode"), p.get("derived")])
 
 
 def nontrivial(p):
@@ -102,7 +103,7 @@ def run_impl(p):
     def f():
         vals = _vals(p)
         base = vals.copy()
-        ra = RaggedArray(base, list(p["lens"]))
+        ra = gens.derive_ra(RaggedArray(base, list(p["lens"])), p.get("derived"))
         name, how, axis = p["name"], p["how"], p["axis"]
         def call():
             if how == "method":
@@ -130,6 +131,8 @@ def run_impl(p):
                 ra.fill(one)
             elif how_w == 1 and ra.size:
                 ra.ravel()[-1] = one
+            elif ra.size and p.get("derived"):
+                ra.ravel()[0] = one          # (a derived array has a buffer of its own)
             elif ra.size:
                 base[0] = one
             with np.errstate(all="ignore"), warnings.catch_warnings():
